@@ -128,7 +128,9 @@ class Values:
         if self._min_cut < d:
             return False  # depends on an unfinished request above this one
         self._min_cut = 1 << 30
-        return True
+        # (while inlined views are under construction, field values come from the plain methods:
+        # what is computed from them is provisional as well)
+        return not self._viewing
 
     # ------------------------------------------------------------------ params
     def param_roles(self, unit: Unit, name: str) -> Set[str]:
